@@ -115,9 +115,10 @@ class SchedWriter(rbql_engine.RBQLOutputWriter):
 def make_body(sched, spec):
     """spec: dict(query, A, B, a_names, b_names)."""
     def body(tid):
-        it = SchedIterator(sched, tid, [list(r) for r in spec['A']], spec.get('a_names'))
+        # the table objects are shared between the two interleaved queries (and with the run-alone baseline)
+        it = SchedIterator(sched, tid, spec['A'], spec.get('a_names'))
         wr = SchedWriter(sched, tid)
-        reg = SchedRegistry(sched, tid, [list(r) for r in spec['B']], spec.get('b_names')) if spec.get('B') is not None else None
+        reg = SchedRegistry(sched, tid, spec['B'], spec.get('b_names')) if spec.get('B') is not None else None
         warnings = []
         try:
             engine.rbql.query(spec['query'], it, wr, warnings, reg)
